@@ -142,3 +142,12 @@ info('C12',
      '<= 5 through term -> MPO and correlation functions, sampled quadruples through expectation_value_term.',
      ['grouped-site combinations and quadruples are sampled, not exhaustive'],
      [])
+info('C19',
+     'P: periodic extension of mps2lat_idx/lat2mps_idx (see contracts/c_lattice.py). '
+     'B (bounded; exhaustive for the stated finite domain in the thorough tier): every lattice class, sizes up to 4x4, orderings '
+     '(named and custom permutation), every open/periodic/shifted x finite/infinite combination, all displacement vectors up to the '
+     'lattice size and all sublattice pairs: index maps mutually inverse and injective (infinite: on [-2N,3N) and periodic), '
+     'mps2lat_values placement, possible_couplings equal to a brute-force enumeration over coordinate pairs, unit-cell assignment of '
+     'boundary couplings; neighbour lists against Euclidean distances; irregular, multi-species, helical lattices.',
+     ['quick tier samples 40 displacement vectors per lattice and four orderings on sizes <= 3x2'],
+     [])
